@@ -10,6 +10,7 @@ import Bubus.Proofs.HistInv
 import Bubus.Proofs.Fifo
 import Bubus.Proofs.PathInv
 import Bubus.Proofs.NoSkip
+import Bubus.Proofs.RunLoop
 namespace Bubus.Examples
 open Bubus
 
@@ -92,5 +93,18 @@ example : ((run {} (complete.take 20)).map fun w =>
 example : ((run {} nested).map fun w =>
       ((w.act (.inst 0)).map fun A => (A.sel, A.todo, A.running), (w.ev 1).results.map (·.terminal))) =
     some (some ([1], [], [1]), [false]) := by decide
+
+/-- non-vacuity of the C16 run-loop invariant theorems: a reachable state in which the run loop of bus 0 has exited
+    (its task was cancelled while it polled) with an event still queued; there `hSched` and `peBegin` of that run loop are
+    disabled, and `rlCreate` is the one label that leaves the state -/
+def cancelledRun : List Label :=
+  [.newBus 0 false (some 50) false, .on 0 1 0 .async, .newEvent 0 1 none 0, .rlCreate 0, .dispatch .ext 0 0 .ok,
+   .cancelRl 0, .rlExit 0]
+
+example : ((run {} cancelledRun).map fun w => ((w.bus 0).rl, (w.bus 0).queue, (w.act (.rl 0)).isSome)) =
+    some (.exited, [0], false) := by decide
+
+example : ((run {} cancelledRun).bind fun w => step w (.peBegin (.rl 0) 0 0)).isSome = false := by decide
+example : ((run {} cancelledRun).bind fun w => step w (.rlCreate 0)).isSome = true := by decide
 
 end Bubus.Examples
